@@ -141,6 +141,20 @@ def run(ctx):
         return
     if ctx.shard[0] == 0:
         equal_but_different(ctx)
+        # directed: a nested graph with its own binding that the selection does not need but that can still run
+        for sel_kind in ("graph", "runtime"):
+            for sel in (["p"], ["p", "m"]):
+                nodes = [
+                    {"k": "fn", "name": "up", "params": [{"n": "a"}], "outs": ["m"]},
+                    {"k": "sub", "name": "inner", "prog": {"name": "inner", "nodes": [{"k": "fn", "name": "f", "params": [{"n": "m"}, {"n": "k"}], "outs": ["o"]}], "bind": {"k": "bound:K"}}},
+                    {"k": "fn", "name": "other", "params": [{"n": "m"}], "outs": ["p"]},
+                ]
+                dspec = {"name": "g", "nodes": nodes, "bind": {}}
+                if sel_kind == "graph":
+                    dspec["select"] = list(sel)
+                for runner in ("sync", "async"):
+                    check_case(ctx, dspec, {"a": "run:a"}, None if sel_kind == "graph" else list(sel), runner, f"directed-unselected-bound-subgraph-{sel_kind}")
+        ctx.case({"directed": "unselected-bound-subgraph"}, True)
     for i in range(n):
         rng = ctx.rng
         if i % 8 == 7:
@@ -185,6 +199,13 @@ def run(ctx):
         select = None
         if rng.random() < (0.6 if graph_level_select else 0.35):
             outs = [e for ns in spec["nodes"] for e in ref.data_output_names(ns)]
+            subs_bound = [ns for ns in spec["nodes"] if ns["k"] == "sub" and ns["prog"].get("bind")]
+            if subs_bound and rng.random() < 0.7:
+                # narrow to outputs produced OUTSIDE a nested graph that carries its own binding: the nested graph
+                # is then unselected but may still run, and its bound input must still resolve
+                outside = [e for ns in spec["nodes"] if ns["k"] != "sub" for e in ref.data_output_names(ns)]
+                outs = outside or outs
+                graph_level_select = True
             if outs:
                 select = rng.sample(outs, rng.randint(1, min(2, len(outs))))
                 req, opt = ref.ref_inputs(spec, select)
